@@ -61,12 +61,17 @@ def strategy(tier):
         orders = orders_upto(k, K)
         ops = []
         for _ in range(draw(st.integers(3, 14 if tier == "quick" else 25))):
-            kind = draw(st.sampled_from(["get", "get", "get", "get", "get_fresh", "slice", "repeat", "new", "starved_get"]))
+            kind = draw(st.sampled_from(["get", "get", "get", "get", "get_fresh", "slice", "repeat", "new", "starved_get", "user_product", "user_product"]))
             comp = draw(st.integers(0, 2))
             if kind in ("get", "get_fresh"):
                 ops.append([kind, comp, draw(st.sampled_from(SERIES)), draw(st.integers(0, nb - 1)), draw(st.integers(0, nb - 1))] + list(draw(st.sampled_from(orders))))
             elif kind == "starved_get":
                 ops.append(["starved_get", comp, draw(st.sampled_from(SERIES)), draw(st.integers(0, nb - 1)), draw(st.integers(0, nb - 1))] + list(draw(st.sampled_from(orders))) + [draw(st.integers(8, 70))])
+            elif kind == "user_product":
+                bi = draw(st.integers(0, nb - 1))
+                bj = bi if draw(st.booleans()) else draw(st.integers(0, nb - 1))
+                big = [o for o in orders if sum(o) >= 2] or orders
+                ops.append(["user_product", comp, draw(st.sampled_from([1, 1, 0])), bi, bj] + list(draw(st.sampled_from(big if draw(st.booleans()) else orders))))
             elif kind == "slice":
                 n = list(draw(st.sampled_from(orders)))
                 ops.append(["slice", comp, draw(st.sampled_from(SERIES)), draw(st.sampled_from(["blocks", "orders", "row"])), draw(st.integers(0, nb - 1))] + n)
@@ -304,6 +309,20 @@ def check_case(case, enforce_all=False):
                     return out.fail("history-dependent", f"{name}[{i},{j},{list(n)}] requested again after dying of a low recursion limit differs from the reference table")
             elif not _same(_norm(v), lookup(name, i, j, n)):
                 return out.fail("history-dependent", f"{name}[{i},{j},{list(n)}] (under a low recursion limit) differs from the reference table")
+        elif kind == "user_product":
+            # the caller forms its own Cauchy product of two returned series (the documented unitarity check U^dagger U,
+            # declared hermitian=True in Hermitian mode, where the product is Hermitian) and requests one element of it;
+            # this reads cached elements of U and U^dagger and must leave them - and everything computed later - alone
+            _, c, herm, i, j, *n = op
+            if "implicit" in case["problem"]:
+                return None
+            from pymablock.series import cauchy_dot_product
+
+            c = c % len(comps)
+            prod = cauchy_dot_product(comps[c]["U_inv"], comps[c]["U"], hermitian=bool(herm) and bool(p["hermitian"]))
+            element(prod, (i, j) + tuple(n))
+            out.labels.append("op:user_product" + (":hermitian" if herm and p["hermitian"] else ""))
+            flags["repeat_or_second"] = True
         elif kind == "repeat":
             prev = [h for h in history if h[0] in ("get", "slice")]
             if prev:
